@@ -898,6 +898,7 @@ def _quant_gen(ip, st, e, gens, k, is_all, bvars, guards):
                 elem = L.elem_value(seq.kind, tm.Nth(seq.term, i))
             guard = tm.And(tm.Le(tm.Int(0), i), tm.Lt(i, n))
             inner = st2.fork()
+            inner.in_quantifier = True
             inner.assume(guard)
             list(ip.assign(inner, g.target, elem))
             for st3, r in _quant_gen(ip, inner, e, gens, k + 1, is_all, bvars + [i], guards + [guard]):
@@ -1276,7 +1277,7 @@ def dict_get(ip, st, recv, args, kwargs):
             return
         if kind_of(key) != "str":
             raise Unsupported("JSON dict .get with non-str key")
-        has = V.j_dhas(recv.term, to_term(key))
+        has = V.dhas(st, recv.term, to_term(key))
         for st1, b in ip.branch(st, Sym("bool", has)):
             yield st1, (JVal(V.j_dget(recv.term, to_term(key))) if b else default)
         return
